@@ -36,7 +36,7 @@ let order_code = function "rm" -> 0 | "cm" -> 1 | "cmb" -> 2 | o -> failwith ("o
 (* extension point: other driver modules may add operations *)
 let extra_ops : (string, string array -> string -> z Model.op) Hashtbl.t = Hashtbl.create 16
 
-let parse_op (o : string) (impl_step : string) : z op =
+let parse_base_op (o : string) (impl_step : string) : z op =
   let f = fields o in
   let nat i = nat_of_int (int_of_string f.(i)) in
   match f.(0) with
@@ -68,6 +68,41 @@ let parse_op (o : string) (impl_step : string) : z op =
       | Some p -> p f impl_step
       | None -> failwith ("unknown op " ^ k))
 
+let bin_code = function "add" -> 0 | "sub" -> 1 | "mul" -> 2 | "div" -> 3 | "mod" -> 4 | "pow" -> 5
+                       | "min" -> 6 | "max" -> 7 | o -> failwith ("binop " ^ o)
+let cmp_code = function "gt" -> 0 | "gte" -> 1 | "lt" -> 2 | "lte" -> 3 | "eq" -> 4 | "ne" -> 5
+                       | o -> failwith ("cmpop " ^ o)
+let un_code = function "neg" -> 0 | "square" -> 1 | "cube" -> 2 | "abs" -> 3 | "sign" -> 4
+                      | o -> failwith ("unop " ^ o)
+
+let parse_mode (s : string) : mode =
+  match String.split_on_char '.' s with
+  | ["safe"] -> MSafe | ["unsafe"] -> MUnsafe
+  | ["reuse"; r] -> MReuse (nat_of_int (int_of_string r))
+  | ["incr"; r] -> MIncr (nat_of_int (int_of_string r))
+  | _ -> failwith ("mode " ^ s)
+let parse_cmode (s : string) : cmode =
+  match String.split_on_char '.' s with
+  | ["safe"] -> CSafe | ["unsafe"] -> CUnsafe
+  | ["reuse"; r] -> CReuse (nat_of_int (int_of_string r))
+  | _ -> failwith ("cmode " ^ s)
+
+(* elementwise operations:
+     bin:<op>:<a>:<b>:<mode>[:api]        bins:<op>:<t>:<scalar>:<left|right>:<mode>[:api]
+     cmp:<op>:<a>:<b>:<bool|same>:<mode>  cmps:<op>:<t>:<scalar>:<left|right>:<bool|same>:<mode>
+     un:<op>:<a>:<mode> *)
+let parse_op (o : string) (impl_step : string) : zop =
+  let f = fields o in
+  let nat i = nat_of_int (int_of_string f.(i)) in
+  let zi i = z_of_int (int_of_string f.(i)) in
+  match f.(0) with
+  | "bin" -> ZBin (z_of_int (bin_code f.(1)), nat 2, nat 3, parse_mode f.(4))
+  | "bins" -> ZBinS (z_of_int (bin_code f.(1)), nat 2, zi 3, f.(4) = "left", parse_mode f.(5))
+  | "cmp" -> ZCmp (z_of_int (cmp_code f.(1)), nat 2, nat 3, f.(4) = "same", parse_cmode f.(5))
+  | "cmps" -> ZCmpS (z_of_int (cmp_code f.(1)), nat 2, zi 3, f.(4) = "left", f.(5) = "same", parse_cmode f.(6))
+  | "un" -> ZUn (z_of_int (un_code f.(1)), nat 2, parse_mode f.(3))
+  | _ -> ZBase (parse_base_op o impl_step)
+
 let status_str dt = function
   | RUnit -> "ok"
   | RVal v -> "val:" ^ string_of_int (pv dt v)
@@ -78,13 +113,21 @@ let status_str dt = function
 let lcell dt = function Ok v -> string_of_int (pv dt v) | Err -> "E" | Panic -> "P"
 let flist l = if l = [] then "_" else String.concat "," l
 
+(* allocation ids are reported in order of first appearance over the run (the harness names
+   the allocations it discovers the same way), so engine-internal temporaries do not count *)
+let bufnames : (int, int) Hashtbl.t = Hashtbl.create 16
+let bufname (b : int) : int =
+  match Hashtbl.find_opt bufnames b with
+  | Some n -> n
+  | None -> let n = Hashtbl.length bufnames in Hashtbl.replace bufnames b n; n
+
 let obs_model_str dt (st : z store) : string =
   let n = int_of_nat (ntens_model st) in
   let b = Buffer.create 256 in
   for i = 0 to n - 1 do
     let (((((((sh, l), w), strides), o), buf), off), len) = obs_model st (nat_of_int i) in
     let ws = match w with Some w -> fvals dt w | None -> "P" in
-    let bs = if int_of_z len = 0 then "?" else Printf.sprintf "%d+%d" (int_of_nat buf) (int_of_z off) in
+    let bs = if int_of_z len = 0 then "?" else Printf.sprintf "%d+%d" (bufname (int_of_nat buf)) (int_of_z off) in
     Buffer.add_string b
       (Printf.sprintf " T%d[%s|L:%s|W:%s|M:%s;%d;%s]" i (fzs sh)
          (flist (List.map (lcell dt) l)) ws (fzs strides) (int_of_z o) bs)
@@ -151,6 +194,8 @@ let operand_ids (o : string) : int list =
   match f.(0) with
   | "new" -> []
   | "copy" -> [int_of_string f.(1); int_of_string f.(2)]
+  | "bin" | "cmp" -> [int_of_string f.(2); int_of_string f.(3)]
+  | "bins" | "cmps" | "un" -> [int_of_string f.(2)]
   | _ -> (try [int_of_string f.(1)] with _ -> [])
 
 (* extension point: operand ids of operations added by other driver modules *)
@@ -159,6 +204,7 @@ let extra_operands : (string, string array -> int list) Hashtbl.t = Hashtbl.crea
 let run_prog dt (prog : string) (impl : string) : outcome =
   let ops = Array.of_list (split_ops prog) in
   let isteps = split_steps impl in
+  Hashtbl.reset bufnames;
   let m = ref (empty_store : z store) and s = ref (Some (empty_sstate : z sstate)) in
   let mout = ref [] and sout = ref [] in
   let stop = ref false in
@@ -168,7 +214,7 @@ let run_prog dt (prog : string) (impl : string) : outcome =
         let istep = if i < Array.length isteps then isteps.(i) else "" in
         let op = parse_op o istep in
         let before = !m in
-        let (m', r) = step_model Z0 !m op in
+        let (m', r) = zstep_model !m op in
         m := m';
         let mstr = (match r with
             | RPanic -> "panic"
@@ -177,7 +223,7 @@ let run_prog dt (prog : string) (impl : string) : outcome =
         (match !s with
          | None -> sout := "?" :: !sout
          | Some st ->
-           (match step_spec Z0 st op with
+           (match zstep_spec st op with
             | None -> s := None; sout := "?" :: !sout
             | Some (st', r') ->
               s := Some st';
@@ -189,8 +235,9 @@ let run_prog dt (prog : string) (impl : string) : outcome =
                 let f = fields o in
                 let ids = match Hashtbl.find_opt extra_operands f.(0) with
                   | Some g -> g f | None -> operand_ids o in
-                ignore ids;
-                cls := f.(0) ^ ":" ^ gname (guard_op before op)
+                let gn = gname (zguard before op) in
+                let gn = if gn = "other" then "L" ^ String.concat "," (List.map (layout_tag before) ids) else gn in
+                cls := f.(0) ^ (if Array.length f > 1 && (f.(0) = "bin" || f.(0) = "bins" || f.(0) = "cmp" || f.(0) = "cmps" || f.(0) = "un") then "." ^ f.(1) else "") ^ ":" ^ gn
                        ^ ":" ^ symptom (strip_model_only mstr) sstr;
                 (* after a divergence the two states are no longer related *)
                 s := None
